@@ -108,6 +108,9 @@ type Wrap struct {
 
 // Causes are standard-library errors a real handler's failure plausibly is or wraps (index 0: none).
 var Causes = []error{nil, io.EOF, io.ErrUnexpectedEOF, net.ErrClosed, context.Canceled, context.DeadlineExceeded, os.ErrDeadlineExceeded, sql.ErrNoRows,
+	// several failures reported as one (errors.Join, %w twice): still one error
+	errors.Join(errors.New("first of two failures"), io.ErrUnexpectedEOF),
+	fmt.Errorf("cleanup failed (%w) after the statement had failed (%w)", net.ErrClosed, context.Canceled),
 	// what a handler that forwards queries to a PostgreSQL server gets back from its driver
 	&pgconn.PgError{Severity: "FATAL", Code: "57P01", Message: "terminating connection due to administrator command", Detail: "upstream detail", Hint: "upstream hint", ConstraintName: "upstream_pkey", File: "postgres.c", Line: 3000, Routine: "ProcessInterrupts"}}
 
@@ -539,6 +542,10 @@ func runCopy(ctx context.Context, c *tr.Conn, st *Stmt, w wire.DataWriter, plan 
 	if err != nil {
 		c.CB("copyin", CopyRec{Stmt: st.ID, Read: -1, Err: err.Error()})
 		return err
+	}
+	if cols := cr.Columns(); st.Cols != nil && len(cols) != len(st.Cols) {
+		// (a handler building its own scanners asks the reader for the columns of the COPY)
+		return fmt.Errorf("harness: CopyReader.Columns() has %d columns, the statement declares %d", len(cols), len(st.Cols))
 	}
 	var br *wire.BinaryCopyReader
 	if plan.Binary {
